@@ -1789,3 +1789,11 @@ SELFTEST = [
      "edits": [(AD, "if path_segments.contains_key(name) {", "let clashes = path_segments.get(name).is_some();\n                    if clashes {")],
      "why": 'behaviour-preserving: contains_key(name) written as get(name).is_some() bound to a named flag'},
 ]
+
+
+SELFTEST += [
+    {"name": "vpp-equal-test-negated", "kind": "benign", "why": "behaviour-preserving: `if path != vars` written `if !(path == vars)`; the Ok is still reached only when the sets compared equal",
+     "edits": [("dropshot/src/api_description.rs", "        if path != vars {", "        if !(path == vars) {")]},
+    {"name": "vpp-early-ok-when-no-path-params", "kind": "mutant", "expect": ["C02.R5"], "why": "the comparison is skipped when the handler declares no path parameters: `/things/{id}` with a handler that ignores `id` is accepted",
+     "edits": [("dropshot/src/api_description.rs", "        if path != vars {", "        if vars.is_empty() {\n            return Ok(());\n        }\n        if path != vars {")]},
+]
